@@ -32,8 +32,8 @@ def closings (obs : List Obs) : Nat :=
 /-- the observable effect of a sub-routine: what it appends to the log -/
 def Appends (s s' : St) (extra : List Obs) : Prop := s'.obs = s.obs ++ extra
 
-theorem write_obs (s : St) (b : Bytes) :
-    ((write s b).2 = none ∧ (write s b).1 = emit s (.wrote b)) ∨ (∃ k, (write s b).2 = some k ∧ (write s b).1 = s) := by
+theorem write_obs (s : St) (b : Bytes) (w : WKind) :
+    ((write s b w).2 = none ∧ (write s b w).1 = emit s (.wrote b w)) ∨ (∃ k, (write s b w).2 = some k ∧ (write s b w).1 = s) := by
   unfold write
   cases s.werr with
   | none => left; exact ⟨rfl, rfl⟩
